@@ -1,6 +1,6 @@
 //! C10 — coordinates sign-extended and scaled exactly; speeds / courses / draught scaled.
 
-use crate::adapter::{Config, STD};
+use crate::adapter::{configs, Config, STD};
 use crate::engine::{Ctx, Input, Rec, Verdict};
 use crate::gen::payload::{payload_inputs, LenMode};
 use crate::props::payload::check_input;
@@ -77,8 +77,8 @@ fn sweep_coord(t: u8, len: usize, f: &FieldExp, is_lon: bool, lo: u64, hi: u64, 
             Some(nav) => {
                 let o = if is_lon { nav.lon } else { nav.lat };
                 match o {
-                    // presence is C11's business; a present value must be right
-                    None => true,
+                    // a non-sentinel raw must be reported (C11 judges this too)
+                    None => false,
                     Some(x) => ((x as f64) - exact).abs() <= ulps as f64 * ulp_f32(exact) * 1.000001,
                 }
             }
@@ -95,7 +95,7 @@ pub fn run(ctx: &mut Ctx) {
     ctx.rule = "coordinate / speed / course / draught raws are written into their spans (boundary values, both sides of the sign bit, sentinel +-2, uniform) with random neighbours; the reported value must equal the exact rational raw/600000 (raw/600 for types 17, 27), raw/10, or raw, within 2 ulp of f32 (3 for type 27; 1 for tenths; 0 for undivided). Exhaustive sweeps: all 2^18 / 2^17 raws of types 17 and 27 and all speed/course/draught raws (quick and thorough); all 2^28 / 2^27 raws of every layout carrying them (thorough). Non-trivial = raw is neither 0 nor the sentinel; distinct by (layout, field, raw) in sweeps and by payload bytes in generated cases.".into();
     ctx.assumptions = vec![
         "tolerance stated in ulps because 'correct to single-precision rounding' admits more than one evaluation order".into(),
-        "sentinel raws are C11's and are skipped here; an absent value where a present one is expected is judged by C11".into(),
+        "sentinel raws are C11's and are skipped here; a non-sentinel raw reported as absent fails here as well as in C11".into(),
         "exhaustive sweeps use typed access to the std build; any disagreement is re-judged through the generic Debug-tree comparison before it is reported".into(),
     ];
     ctx.replay_regressions(check);
@@ -149,7 +149,7 @@ pub fn run(ctx: &mut Ctx) {
                 // quick tier: dense windows around every boundary of the 28/27-bit fields
                 let sent = if f.width == 28 { 108_600_000u64 } else { 54_600_000u64 };
                 let half = 1u64 << (f.width - 1);
-                for centre in [0u64, half, sent, full - 1, half / 2, half + half / 2, 1 << 24, 1 << 26] {
+                for centre in [0u64, half, sent, full - 1, half / 2, half + half / 2, 1 << 24, 1 << 26, 108_600, 54_600, full - 108_600, full - 54_600] {
                     let lo = centre.saturating_sub(20_000).min(full - 1);
                     let hi = (centre + 20_000).min(full);
                     jobs.push((t, len, f.clone(), is_lon, lo, hi));
@@ -190,11 +190,14 @@ pub fn run(ctx: &mut Ctx) {
     if thorough {
         ctx.mark_exhaustive(sub, "all 2^28 longitude and 2^27 latitude raws in types 1-3, 4, 9, 11, 18, 19, 21 and all 2^18 / 2^17 raws in types 17 and 27, neighbours re-randomised every 4096 values");
     } else {
-        ctx.mark_exhaustive(sub, "all 2^18 / 2^17 raws in types 17 and 27; for the 28/27-bit fields 40000-value windows around 0, the sign bit, the sentinel, the extremes and four interior points in each of types 1-3, 4, 9, 11, 18, 19, 21");
+        ctx.mark_exhaustive(sub, "all 2^18 / 2^17 raws in types 17 and 27; for the 28/27-bit fields 40000-value windows around 0, the sign bit, the sentinel, the extremes, four interior points and +-108600 / +-54600 (the codes of the other resolution) in each of types 1-3, 4, 9, 11, 18, 19, 21");
     }
     ctx.samples.push(json!({"sub": sub, "what": "typed sweep", "raws_decoded": total, "example": "type 1 longitude raw 0x8000000 (most negative) -> expected -223.696213 degrees"}));
 
     // (c) generated joint assignments through the generic path
     let n = ctx.tier.pick(30_000, 1_000_000);
     ctx.run_proptest("random-assignments", &STD, n, payload_inputs(COORD_TYPES.iter().copied().chain([5u8]).collect(), LenMode::Standard, Prop::C10, 8, 0.10), check);
+    for cfg in configs().into_iter().skip(1) {
+        ctx.run_proptest("random-assignments", cfg, n / 3, payload_inputs(COORD_TYPES.iter().copied().chain([5u8]).collect(), LenMode::Standard, Prop::C10, 8, 0.10), check);
+    }
 }
